@@ -29,6 +29,8 @@ type Prog struct {
 	// contracts parsed from zz_contracts_verif.go files
 	Contracts map[string]*Contract // key: funcKey
 	srcCache  map[string][]byte
+	globConst map[*ssa.Global]*ssa.Const
+	globInit  bool
 }
 
 // in-scope package patterns (relative to /repo)
@@ -206,4 +208,55 @@ func (p *Prog) sortedFuncKeys() []string {
 	}
 	sort.Strings(ks)
 	return ks
+}
+
+// globalConst: package-level variables that are initialised with a constant and never assigned elsewhere
+// behave as constants (e.g. types.BondDenom = "loya").
+func (p *Prog) globalConst(g *ssa.Global) *ssa.Const {
+	if !p.globInit {
+		p.globInit = true
+		p.globConst = map[*ssa.Global]*ssa.Const{}
+		bad := map[*ssa.Global]bool{}
+		for fn := range ssautil.AllFunctions(p.SSA) {
+			for _, b := range fn.Blocks {
+				for _, in := range b.Instrs {
+					st, ok := in.(*ssa.Store)
+					if !ok {
+						// address escaping through any other use is not tracked; only direct stores matter for string/int globals
+						continue
+					}
+					gl, ok := st.Addr.(*ssa.Global)
+					if !ok {
+						continue
+					}
+					c, isC := st.Val.(*ssa.Const)
+					if fn.Name() == "init" && isC && p.globConst[gl] == nil && !bad[gl] {
+						p.globConst[gl] = c
+					} else {
+						bad[gl] = true
+						delete(p.globConst, gl)
+					}
+				}
+			}
+		}
+		// globals whose address is taken by anything other than a load are not constants
+		for fn := range ssautil.AllFunctions(p.SSA) {
+			for _, b := range fn.Blocks {
+				for _, in := range b.Instrs {
+					if _, ok := in.(*ssa.Store); ok {
+						continue
+					}
+					if u, ok := in.(*ssa.UnOp); ok && u.Op == token.MUL {
+						continue
+					}
+					for _, op := range in.Operands(nil) {
+						if gl, ok := (*op).(*ssa.Global); ok {
+							delete(p.globConst, gl)
+						}
+					}
+				}
+			}
+		}
+	}
+	return p.globConst[g]
 }
